@@ -242,8 +242,49 @@ def oracle_pit(c):
     return {"nt": bool(has_link), "cls": ["auto" if c["auto_update"] else "noauto", "linked" if has_link else "independent"], "extra": {"max_abs_z": rep["max_abs_z"]}}
 
 
+# ------------------------------------------------------------------------------ "determined by the seed": also across interpreter sessions
+def sim_digest(c):
+    import hashlib
+
+    model, vs, extra = build(c)
+    model.auto_update = c["auto_update"]
+    model.simulate(jax.random.PRNGKey(c["seed"]), skip=skip_names(c, model))
+    h = hashlib.sha256()
+    for v in vs + extra:
+        h.update(v.name.encode() + np.ascontiguousarray(np.asarray(v.value)).tobytes())
+    return h.hexdigest()
+
+
+def oracle_cross(c):
+    import json
+    import os
+    import subprocess
+    import sys
+
+    digs = {"this": sim_digest(c)}
+    for hs in ("1", "2"):
+        env = dict(os.environ, PYTHONHASHSEED=hs)
+        out = subprocess.run([sys.executable, "-m", "checks.c17_simulate", "--child", json.dumps(c)], env=env, capture_output=True, text=True, cwd=os.environ.get("VERIF_DIR", "."))
+        line = [ln for ln in out.stdout.splitlines() if ln.startswith("DIGEST ")]
+        if not line:
+            raise RuntimeError(f"harness: child process failed: {out.stderr[-800:]}")
+        digs[hs] = line[-1].split()[1]
+    require(len(set(digs.values())) == 1, "simulated-values-depend-on-interpreter-hash-seed", f"digests {digs}; {c}")
+    return {"nt": c["depth"] >= 3 or c["extra_branch"], "cls": [f"depth{c['depth']}", c["skip_kind"]]}
+
+
 SUBS = [
     Sub("ancestral", oracle, gen=gen, n={"quick": 400, "thorough": 8000}, shrink_calls=60, what="tight children sit at g(new parent); shapes; skips; seeds; coherence"),
     Sub("pit", oracle_pit, gen=gen_pit, n={"quick": 24, "thorough": 300}, shrink={"quick": False, "thorough": False}, min_per_shard=3,
         what="PIT of drawn variables under the new ancestor values is uniform (1024 seeds per case, vmapped)"),
+    Sub("cross_process", oracle_cross, gen=gen, n={"quick": 8, "thorough": 60}, shrink={"quick": False, "thorough": False}, min_per_shard=2,
+        what="the same seed in separate interpreter processes with different PYTHONHASHSEED values gives bit-identical simulated values"),
 ]
+
+
+if __name__ == "__main__":
+    import json
+    import sys
+
+    if len(sys.argv) >= 3 and sys.argv[1] == "--child":
+        print("DIGEST", sim_digest(json.loads(sys.argv[2])))
